@@ -283,6 +283,16 @@ func c18EvalInner(c c18Case) (ok bool, sig, detail string) {
 			}
 			return false, "search", fmt.Sprintf("Search(%q, %q) = %v want %v", c.Seq, c.Query, segsOf(got), want)
 		}
+		// non-initial representation: the same residues held by a GenBank record whose ORIGIN was already decoded
+		if len(c.Seq) <= 16 && allLetters(c.Seq) {
+			var got2 []gts.Segment
+			if p, msg := engine.Safely(func() { got2 = gts.Search(decodedGenBank(c.Seq, nil), gts.New(nil, nil, cloneBytes(c.Query))) }); p {
+				return false, "search-panic", fmt.Sprintf("Search(decoded GenBank record %q, %q) panics: %s", c.Seq, c.Query, msg)
+			}
+			if fmt.Sprint(segsOf(got2)) != fmt.Sprint(want) {
+				return false, "search-decoded-genbank", fmt.Sprintf("Search(GenBank record %q whose ORIGIN was already decoded, %q) = %v want %v", c.Seq, c.Query, segsOf(got2), want)
+			}
+		}
 		return true, "", ""
 	}
 	return true, "", ""
